@@ -126,12 +126,63 @@ pub fn rget(c: usize, r: &Row) -> V {
     r.iter().find(|(k, _)| *k == c).map(|(_, v)| v.clone()).unwrap_or(V::Null)
 }
 
+/// type class of a value; NULL belongs to every class
+fn class_of(v: &V) -> Option<u8> {
+    match v {
+        V::Null => None,
+        V::Bool(_) => Some(0),
+        V::Int(_) | V::Float(_) => Some(1),
+        V::Str(_) => Some(2),
+    }
+}
+/// all non-NULL members of a BETWEEN / IN group belong to one class
+fn uniform(g: &[V]) -> bool {
+    let mut seen: Option<u8> = None;
+    for v in g {
+        if let Some(c) = class_of(v) {
+            match seen {
+                None => seen = Some(c),
+                Some(d) if d != c => return false,
+                _ => {}
+            }
+        }
+    }
+    true
+}
+fn has_float(g: &[V]) -> bool {
+    g.iter().any(|v| matches!(v, V::Float(_)))
+}
+/// the engine coerces the column and every literal of a BETWEEN / IN list to
+/// one common type: Float64 as soon as one numeric member is a float
+fn prom(fl: bool, v: &V) -> V {
+    match (fl, v) {
+        (true, V::Int(i)) => V::Float(int_as_f64(*i).to_bits()),
+        _ => v.clone(),
+    }
+}
+
 fn in_list(x: &V, vs: &[PV]) -> Tv {
+    let lits: Vec<V> = vs.iter().map(lit).collect();
+    let mut g = vec![x.clone()];
+    g.extend(lits.iter().cloned());
+    if !uniform(&g) {
+        return Tv::U; // convention shared with the model runner (xg = unknown)
+    }
+    let fl = has_float(&g);
     let mut acc = Tv::F;
-    for v in vs.iter().rev() {
-        acc = or(cmp_op(Op::Eq, x, &lit(v)), acc);
+    for l in lits.iter().rev() {
+        acc = or(cmp_op(Op::Eq, &prom(fl, x), &prom(fl, l)), acc);
     }
     acc
+}
+
+fn between(x: &V, lo: &V, hi: &V) -> Tv {
+    let g = [x.clone(), lo.clone(), hi.clone()];
+    if !uniform(&g) {
+        return Tv::U;
+    }
+    let fl = has_float(&g);
+    and(cmp_op(Op::Ge, &prom(fl, x), &prom(fl, lo)), cmp_op(Op::Le, &prom(fl, x), &prom(fl, hi)))
 }
 
 pub fn sat(p: &Pred, r: &Row) -> Tv {
@@ -144,10 +195,7 @@ pub fn sat(p: &Pred, r: &Row) -> Tv {
         Pred::Ge(c, v) => cmp_op(Op::Ge, &rget(*c, r), &lit(v)),
         Pred::In(c, vs) => in_list(&rget(*c, r), vs),
         Pred::NotIn(c, vs) => not(in_list(&rget(*c, r), vs)),
-        Pred::Bt(c, lo, hi) => {
-            let x = rget(*c, r);
-            and(cmp_op(Op::Ge, &x, &lit(lo)), cmp_op(Op::Le, &x, &lit(hi)))
-        }
+        Pred::Bt(c, lo, hi) => between(&rget(*c, r), &lit(lo), &lit(hi)),
         Pred::And(a, b) => and(sat(a, r), sat(b, r)),
         Pred::Or(a, b) => or(sat(a, r), sat(b, r)),
         Pred::Not(a) => not(sat(a, r)),
@@ -203,9 +251,10 @@ pub fn in_stats(r: &Row, st: &[Stat]) -> bool {
     true
 }
 
-/// known class "int-literal-int-stats-float-row": a strict arm (=, <=, >=, IN,
-/// BETWEEN) compares an integer literal with integer-typed statistics while the
-/// row holds a float in that column
+/// known class "int-literal-exact-vs-engine-coercion": a strict arm (=, <=, >=,
+/// IN, BETWEEN) compares an integer literal with integer-typed statistics
+/// exactly while the engine compares in f64 (float row value, or a float
+/// member of the same BETWEEN / IN group), or the group mixes type classes
 pub fn known_mixed(p: &Pred, st: &[Stat], r: &Row) -> bool {
     let is_int = |j: &Value| matches!(j, Value::Number(n) if n.is_i64() || n.is_u64());
     let atom = |c: usize, v: &PV| -> bool {
@@ -214,10 +263,16 @@ pub fn known_mixed(p: &Pred, st: &[Stat], r: &Row) -> bool {
             _ => false,
         }
     };
+    let group = |c: usize, vs: &[PV]| -> bool {
+        let Some(s) = stat_of(c, st) else { return false };
+        let mut g = vec![rget(c, r)];
+        g.extend(vs.iter().map(lit));
+        !uniform(&g) || (has_float(&g) && vs.iter().any(|v| matches!(v, PV::I(_))) && (is_int(&s.min) || is_int(&s.max)))
+    };
     match p {
         Pred::Eq(c, v) | Pred::Le(c, v) | Pred::Ge(c, v) => atom(*c, v),
-        Pred::In(c, vs) => vs.iter().any(|v| atom(*c, v)),
-        Pred::Bt(c, lo, hi) => atom(*c, lo) || atom(*c, hi),
+        Pred::In(c, vs) => group(*c, vs),
+        Pred::Bt(c, lo, hi) => group(*c, &[lo.clone(), hi.clone()]),
         Pred::And(a, b) | Pred::Or(a, b) => known_mixed(a, st, r) || known_mixed(b, st, r),
         _ => false,
     }
